@@ -10,6 +10,7 @@
   5.3.2 (induction on the height of the conflict; triples are chased through the memo along the spread path).
 -/
 import PyGqlModel.Lemmas.ValidateOverlapPost3
+import PyGqlModel.Lemmas.ValidateOverlapWf
 namespace PyGql.Validate
 open PyGql PyGql.Validate.Spec
 
@@ -57,6 +58,8 @@ def KeyOblM (s : SchemaD) (d : Doc) (M : MemoM) (k : String × String × Bool) :
 /-- what a key of the (field map, fragment, flag) memo stands for: the fields of the selection set are certified
     against the DIRECT fields of the fragment, and the triples of the fragments it spreads are covered -/
 def FOblM (s : SchemaD) (d : Doc) (M : MemoM) (k : Nat × String × Bool) : Prop :=
+  -- unless the fragment's body IS the selection set (`if field_map is fragment_field_map: return`: nothing was compared)
+  (∀ on fid fsels, AL.get? (fragTable d) k.2.1 = some (on, fid, fsels) → fid ≠ k.1) →
   (∀ sels p rn e1 e2, SelSet d k.1 sels → Adm s d k.1 p → CollD s p sels rn e1 → DirF s d k.2.1 rn e2 →
     CertM s d M k.2.2 e1 e2) ∧
   (∀ h, SprF d k.2.1 h → FCov d M k.2.2 k.1 h)
@@ -92,7 +95,7 @@ theorem keyOblM_of_oriented {s : SchemaD} {d : Doc} {M : MemoM} {f1 f2 : String}
 
 section
 variable {s : SchemaD} {d : Doc} {M : MemoM}
-variable (hpa : ParentsAgree s d) (hne : AL.get? (fragTable d) "" = none)
+variable (hpa : ParentsAgree s d) (hne : AL.get? (fragTable d) "" = none) (hw : WfIds d)
   (hK : ∀ k, M k → OblM s d M k)
   (hW : ∀ i sels, SelSet d i sels → ∀ p, Adm s d i p → WithinCertM s d M i p sels)
 
@@ -105,8 +108,18 @@ def LvFM (s : SchemaD) (d : Doc) (M : MemoM) (n : Nat) : Prop :=
   ∀ k ssid sels p g me rn e1 e2, FCov d M me ssid g → SelSet d ssid sels → Adm s d ssid p → CollD s p sels rn e1 →
     CollFH s d k g rn e2 → ¬ ConfH s d n me e1 e2
 
-include hK in
-theorem lvFM_of (n : Nat) (hA : LvAM s d M n) : LvFM s d M n := by
+include hpa hw hK hW in
+theorem lvFM_of (n : Nat) (hA : LvAM s d M n) (hSelf : LvSelf s d n) : LvFM s d M n := by
+  -- the fragment's body is the selection set itself: its fields were compared when the set was entered
+  have own : ∀ ssid sels p rn e1 e2 me, SelSet d ssid sels → Adm s d ssid p → CollD s p sels rn e1 →
+      CollD s p sels rn e2 → ¬ ConfH s d n me e1 e2 := by
+    intro ssid sels p rn e1 e2 me hs ha c1 c2 hconf
+    have hconf := relaxF hconf
+    by_cases he : e1 = e2
+    · subst he; exact hSelf _ (ent_of_collD hs ha c1) hconf
+    · rcases (hW _ _ hs _ ha).direct _ _ _ c1 c2 he with hc | hc
+      · exact hA _ _ _ (ent_of_collD hs ha c1) (ent_of_collD hs ha c2) hc hconf
+      · exact hA _ _ _ (ent_of_collD hs ha c2) (ent_of_collD hs ha c1) hc hconf.symm
   intro k
   induction k with
   | zero =>
@@ -115,23 +128,44 @@ theorem lvFM_of (n : Nat) (hA : LvAM s d M n) : LvFM s d M n := by
     | here t a c =>
       rcases hcov with hu | hm
       · rw [hu] at t; cases t
-      · have ob : FOblM s d M (ssid, g, me) := hK _ hm
-        exact hA _ _ _ (ent_of_collD hs ha c1) (ent_of_collD (fragTable_selSet t) a c)
-          (ob.1 sels p rn e1 e2 hs ha c1 ⟨_, _, _, _, t, a, c⟩)
+      · rename_i on fid fsels p'
+        by_cases hid : fid = ssid
+        · subst hid
+          have := wf_selSet_unique hw (fragTable_selSet t) hs; subst this
+          rw [hpa _ _ _ a ha] at c
+          exact own _ _ _ _ _ _ me hs ha c1 c
+        · have ob : FOblM s d M (ssid, g, me) := hK _ hm
+          have ob' := ob (fun on' fid' fsels' t' => by rw [t] at t'; cases t'; exact hid)
+          exact hA _ _ _ (ent_of_collD hs ha c1) (ent_of_collD (fragTable_selSet t) a c)
+            (ob'.1 sels p rn e1 e2 hs ha c1 ⟨_, _, _, _, t, a, c⟩)
   | succ k ih =>
     intro ssid sels p g me rn e1 e2 hcov hs ha c1 h2
     cases h2 with
     | here t a c =>
       rcases hcov with hu | hm
       · rw [hu] at t; cases t
-      · have ob : FOblM s d M (ssid, g, me) := hK _ hm
-        exact hA _ _ _ (ent_of_collD hs ha c1) (ent_of_collD (fragTable_selSet t) a c)
-          (ob.1 sels p rn e1 e2 hs ha c1 ⟨_, _, _, _, t, a, c⟩)
+      · rename_i on fid fsels p'
+        by_cases hid : fid = ssid
+        · subst hid
+          have := wf_selSet_unique hw (fragTable_selSet t) hs; subst this
+          rw [hpa _ _ _ a ha] at c
+          exact own _ _ _ _ _ _ me hs ha c1 c
+        · have ob : FOblM s d M (ssid, g, me) := hK _ hm
+          have ob' := ob (fun on' fid' fsels' t' => by rw [t] at t'; cases t'; exact hid)
+          exact hA _ _ _ (ent_of_collD hs ha c1) (ent_of_collD (fragTable_selSet t) a c)
+            (ob'.1 sels p rn e1 e2 hs ha c1 ⟨_, _, _, _, t, a, c⟩)
     | there t sp r =>
       rcases hcov with hu | hm
       · rw [hu] at t; cases t
-      · have ob : FOblM s d M (ssid, g, me) := hK _ hm
-        exact ih ssid sels p _ me rn e1 e2 (ob.2 _ ⟨_, _, _, t, sp⟩) hs ha c1 r
+      · rename_i on h fid fsels
+        by_cases hid : fid = ssid
+        · subst hid
+          have := wf_selSet_unique hw (fragTable_selSet t) hs; subst this
+          intro hconf
+          exact ih _ _ p _ false rn e1 e2 ((hW _ _ hs _ ha).frag _ sp) hs ha c1 r (relaxF hconf)
+        · have ob : FOblM s d M (ssid, g, me) := hK _ hm
+          have ob' := ob (fun on' fid' fsels' t' => by rw [t] at t'; cases t'; exact hid)
+          exact ih ssid sels p _ me rn e1 e2 (ob'.2 _ ⟨_, _, _, t, sp⟩) hs ha c1 r
 
 include hpa in
 theorem lvAM_step (n : Nat) (hA : LvAM s d M n) (hF : LvFM s d M n) (hC : LvChaseM s d M n) : LvAM s d M (n + 1) := by
@@ -297,30 +331,30 @@ theorem lvSetM_of (n : Nat) (hA : LvAM s d M n) (hF : LvFM s d M n) (hSelf : LvS
     obtain ⟨k2, z2⟩ := collF_collFH y2
     exact hC k1 k2 _ _ _ _ _ _ (W.frags _ _ sp1 sp2) z1 z2 hconf
 
-include hpa hne hK hW in
+include hpa hne hw hK hW in
 theorem levelsM (n : Nat) : LvAM s d M n ∧ LvSelf s d n ∧ LvChaseM s d M n ∧ LvSet s d n := by
   induction n with
   | zero =>
     have a := lvAM_zero (s := s) (d := d) (M := M)
-    have f := lvFM_of hK 0 a
     have b := lvSelf_zero (s := s) (d := d)
+    have f := lvFM_of hpa hw hK hW 0 a b
     have c := lvChaseM_of hpa hne hK hW 0 a f b
     exact ⟨a, b, c, lvSetM_of hW 0 a f b c⟩
   | succ n ih =>
-    obtain ⟨a0, _, c0, s0⟩ := ih
-    have f0 := lvFM_of hK n a0
+    obtain ⟨a0, b0, c0, s0⟩ := ih
+    have f0 := lvFM_of hpa hw hK hW n a0 b0
     have a := lvAM_step hpa n a0 f0 c0
-    have f := lvFM_of hK (n + 1) a
     have b := lvSelf_step hpa n s0
+    have f := lvFM_of hpa hw hK hW (n + 1) a b
     have c := lvChaseM_of hpa hne hK hW (n + 1) a f b
     exact ⟨a, b, c, lvSetM_of hW (n + 1) a f b c⟩
 
-include hpa hne hK hW in
+include hpa hne hw hK hW in
 /-- **certificates of the memoised search suffice** -/
 theorem clause_of_certsM : Spec.overlappingFieldsCanBeMerged s d := by
   intro i sels hs p ha rn e1 e2 c1 c2 hconf
   obtain ⟨n, hn⟩ := conf_confH hconf
-  exact (levelsM hpa hne hK hW n).2.2.2 i sels p rn e1 e2 false hs ha c1 c2 hn
+  exact (levelsM hpa hne hw hK hW n).2.2.2 i sels p rn e1 e2 false hs ha c1 c2 hn
 
 end
 end PyGql.Validate
